@@ -169,6 +169,16 @@ def run_history(ctx, init, ops):
                     style.getPropertyPriority(n) != (('important' if eff[4] else '') if eff else ''):
                 ctx.violation('effective', case, 'op %d: getPropertyValue(%r)=%r, reference %r' % (k, n, style.getPropertyValue(n), eff))
                 break
+        # reading through the camel-case attribute = reading by CSS name, however the entries are spelled
+        for css_, dom_ in (('color', 'color'), ('left', 'left'), ('top', 'top'), ('margin-left', 'marginLeft'), ('background-color', 'backgroundColor')):
+            try:
+                a_, b_ = getattr(style, dom_), style.getPropertyValue(css_)
+            except Exception as e:  # noqa
+                ctx.violation('raises', case, 'op %d: attribute %s raised %s: %s' % (k, dom_, type(e).__name__, e))
+                break
+            if a_ != b_:
+                ctx.violation('dom-name-access', case, 'op %d: style.%s = %r but getPropertyValue(%r) = %r' % (k, dom_, a_, css_, b_))
+                break
         # the serialised block says the same as the API (entries, values, priorities, in order)
         try:
             again = cssutils.css.CSSStyleDeclaration(cssText=style.cssText)
